@@ -26,6 +26,8 @@ def satS (w : World) : Surface → Asg → Except Err Bool
   | .hasType t c, σ => do pure ((← tvals w σ t).any fun x => isInstance w x c)
   | .andN f r, σ => do let a ← satS w f σ; satListL w (· && ·) r σ a
   | .orN f r, σ => do let a ← satS w f σ; satListL w (· || ·) r σ a
+  | .amp l r, σ => do pure ((← satS w l σ) && (← satS w r σ))
+  | .bar l r, σ => do pure ((← satS w l σ) || (← satS w r σ))
   | .not e, σ => do pure (!(← satS w e σ))
   | .exists_ v e, σ => anyM (w.dom v) fun x => satS w e ((v, x) :: σ)
   | .forAll v e, σ => allM (w.dom v) fun x => satS w e ((v, x) :: σ)
@@ -233,6 +235,8 @@ structure RewritesOkP (t : RewriteTable) : Prop where
   fold : t.fold ≠ .reversedNested
   andOp : t.andOp = .and
   orOp : t.orOp = .optOr
+  ampOp : t.ampOp = .and
+  barOp : t.barOp = .optOr
   existsCtor : t.existsCtor = .exists_
   forAllCtor : t.forAllCtor = .forAll
   containsSwapped : t.containsSwapped = false
@@ -248,8 +252,8 @@ structure RewritesOkP (t : RewriteTable) : Prop where
 
 theorem RewritesOk.unpack {t : RewriteTable} (h : RewritesOk t = true) : RewritesOkP t := by
   simp only [RewritesOk, Bool.and_eq_true, bne_iff_ne, ne_eq, beq_iff_eq, Bool.not_eq_true'] at h
-  obtain ⟨⟨⟨⟨⟨⟨⟨⟨⟨⟨⟨⟨⟨⟨⟨h1, h2⟩, h3⟩, h4⟩, h5⟩, h6⟩, h7⟩, h8⟩, h9⟩, h10⟩, h11⟩, h12⟩, h13⟩, h14⟩, h15⟩, h16⟩ := h
-  exact ⟨h1, h2, h3, h4, h5, h6, h7, h8, h9, h10, h11, h12, h13, h14, h15, h16⟩
+  obtain ⟨⟨⟨⟨⟨⟨⟨⟨⟨⟨⟨⟨⟨⟨⟨⟨⟨h1, h2⟩, h3⟩, h4⟩, h4a⟩, h4b⟩, h5⟩, h6⟩, h7⟩, h8⟩, h9⟩, h10⟩, h11⟩, h12⟩, h13⟩, h14⟩, h15⟩, h16⟩ := h
+  exact ⟨h1, h2, h3, h4, h4a, h4b, h5, h6, h7, h8, h9, h10, h11, h12, h13, h14, h15, h16⟩
 
 theorem satE_invBinWith_and (w : World) {o : OrRule} (ho : okOrRule o = true) {rule : InvRule}
     (h : okInvAnd rule = true) (l r li ri : Expr) (σ : Asg)
